@@ -201,7 +201,10 @@ def to_connected_graph(
             break
         while len(non_ancestors) > 0:
             n_non = G.nodes[non_ancestors[0]]
-            if n_non["ts_end"] <= G.nodes[n_sup]["ts_start"]:
+            ts_sup = G.nodes[n_sup]["ts_start"]
+            # A zero-duration vertex that ends exactly when the supervisor vertex starts may itself depend on that supervisor
+            # vertex (zero delays): connecting it would close a cycle, so it is left for the next supervisor vertex.
+            if n_non["ts_end"] < ts_sup or (n_non["ts_end"] == ts_sup and not nx.has_path(G, n_sup, non_ancestors[0])):
                 G.add_edge(non_ancestors[0], n_sup)
                 non_ancestors.pop(0)
             else:
